@@ -97,5 +97,5 @@ func startLagMonitor() *lagMonitor {
 }
 
 func (m *lagMonitor) Max() time.Duration { return time.Duration(m.max.Load()) }
-func (m *lagMonitor) Stop()             { close(m.stop) }
-func (m *lagMonitor) overloaded() bool  { return m.Max() > 300*time.Millisecond }
+func (m *lagMonitor) Stop()              { close(m.stop) }
+func (m *lagMonitor) overloaded() bool   { return m.Max() > 300*time.Millisecond }
